@@ -49,3 +49,26 @@ Example C01_demo :
     exec_outs 2 (game0 2) outs = Some g /\ s_last_confirmed (ps_sync p) = 1 /\
     map (fun f => (gvalL (g_hist g) f 0, gvalL (g_hist g) f 1)) [0; 1; 2] = [(1, 7); (1, 7); (2, 7)].
 Proof. eexists. eexists. eexists. split; [vm_compute; reflexivity|]. split; [vm_compute; reflexivity|]. split; vm_compute; reflexivity. Qed.
+
+(* The hypothesis on the predictor cannot be dropped: with the custom predictor x -> (x + 1) mod 6
+   (InputPredictor is a public extension point; not one of the two shipped predictors, so outside the
+   property's space) the model - and the real code, replayed through the L4 simulation, DESIGN.md 0.3 -
+   leaves a CONFIRMED frame simulated with a stale prediction for good: player 1's frames 2,3 are
+   predicted 1; its input for frame 1 arrives and matches; a misprediction of player 2 at frame 3 rolls
+   back to frame 3 only, and the prediction restarted there is predict(1) = 2; player 1's real input 2
+   for frame 2 then matches the NEW prediction, so frame 2 - simulated with 1 - is never flagged. *)
+Definition c01_inc (x : Z) : Z := (x + 1) mod 6.
+Definition c01_inc_ops : list sop :=
+  [SRemote 1 0 0; SRemote 2 0 0;
+   SLocal 0 9; SAdvance; SLocal 0 9; SAdvance; SLocal 0 9; SAdvance; SLocal 0 9; SAdvance;
+   SRemote 1 1 1; SRemote 2 1 1; SRemote 2 2 1; SRemote 2 3 5;
+   SLocal 0 9; SAdvance;
+   SRemote 1 2 2; SRemote 1 3 2; SRemote 1 4 2; SRemote 2 4 5;
+   SLocal 0 9; SAdvance].
+Theorem C01_idempotent_predictor_needed_refuted :
+  exists p outs g, srun_in c01_inc (session_start 3 8 false 0 [KLocal; KRemote 0; KRemote 1] [[1]; [2]] 0) c01_inc_ops = Ok (p, outs) /\
+    exec_outs 8 (game0 8) outs = Some g /\ s_last_confirmed (ps_sync p) = 4 /\
+    gvalL (g_hist g) 2 1 = 1 /\                                  (* what the game last simulated for (frame 2, player 1) *)
+    hval (nth 2 (map (fun o => match o with SRemote 1 _ v => v | _ => 0 end)
+                     (filter (fun o => match o with SRemote 1 _ _ => true | _ => false end) c01_inc_ops)) 0 :: nil) 0 = 2.  (* its real input *)
+Proof. eexists. eexists. eexists. split; [vm_compute; reflexivity|]. split; [vm_compute; reflexivity|]. split; [vm_compute; reflexivity|]. split; vm_compute; reflexivity. Qed.
